@@ -129,6 +129,7 @@ def make_pool(r, g, n, n_test):
   pool['aa'] = 50 + 0.8 * (base - 100) + g.normal(0, 0.3, n) + late
   pool['neg'] = 60 - 0.8 * (base - 100) + g.normal(0, 0.3, n)
   pool['const'] = np.full(n, 5.0)
+  pool['exact'] = 2.0 * base          # exactly twice the first treatment series: zero residuals, zero residual variance
   return ys, pool
 
 
